@@ -602,6 +602,7 @@ let rec json_sx (x : sx) : json =
   | L [] -> JNull
   | A "true" -> JBool true
   | A "false" -> JBool false
+  | A str when String.length str > 17 && str.[0] <> '-' -> JNum (z_of_n (n_of_decimal str))
   | A _ -> JNum (z_of_int (int_sx x))
   | L (A "str" :: _) -> JStr (coq_string_of (ostring_of_bytes x))
   | L (A "L" :: l) -> JArr (List.map json_sx l)
